@@ -554,6 +554,11 @@ class GenFunctions(object):
             node  - ClassNode or FunctionNode
             targs - list of TemplateArguments
         """
+        if len(targs.asts) != len(node.template_parameters):
+            raise RuntimeError(
+                "Instantiation '{}' must have {} template arguments at line {}"
+                .format(targs.instantiation,
+                        len(node.template_parameters), node.linenumber))
         newscope = util.Scope(self.instantiate_scope)
         for idx, argast in enumerate(targs.asts):
             scope = getattr(node, "scope", "")  # XXX - ClassNode has scope
@@ -1038,6 +1043,11 @@ class GenFunctions(object):
             node -
             ordered_functions -
         """
+        if self.instantiate_scope is None:
+            raise RuntimeError(
+                "Function '{}' at line {} uses a template parameter "
+                "but has no cxx_template instantiations"
+                .format(node.ast.name, node.linenumber))
         new = node.clone()
         ordered_functions.append(new)
         self.append_function_index(new)
